@@ -56,6 +56,21 @@ def case_strategy(draw, variant):
     if vspec["dtype"].startswith(("M8", "m8")) and vspec["dtype"].endswith("[ns]"):
         alt_vals = [None if x is None else x % (2 * 10**17) for x in alt_vals]
     alt_keys = draw(S.keys(n, nkeys=(len(keys), len(keys)))) if o.kind == "red" and draw(st.booleans()) else None
+    # value container: NumPy / pandas, or (numeric, non-boolean columns) an Arrow chunked array whose chunk boundaries are
+    # independent of the mask: a chunk may hold no selected row at all
+    vc = draw(st.sampled_from(["np", "np", "series", "chunked"]))
+    if vc == "chunked":
+        if vspec["dtype"] in ("float64", "float32", "int64", "int16", "uint8") and n >= 2:
+            vc = draw(st.sampled_from(["pa_chunked", "pd_arrow_chunked"]))
+            k = draw(st.integers(2, 4))
+            cuts = sorted(draw(st.lists(st.integers(0, n), min_size=k - 1, max_size=k - 1)))
+            b = [0] + cuts + [n]
+            vspec["chunks"] = [y - x for x, y in zip(b[:-1], b[1:])]
+            # Arrow chunks with nulls are refused by the library (zero-copy only): a rejected input class, not generated
+            vspec["vals"] = [0 if v is None else v for v in vspec["vals"]]
+            alt_vals = [0 if v is None else v for v in alt_vals]
+        else:
+            vc = "np"
     # earlier masked calls on the same grouping object (0-2), through one boolean buffer refilled in place when the
     # examined mask is a NumPy boolean array: "any operation" includes the second and third call of an object
     prior = []
@@ -67,7 +82,7 @@ def case_strategy(draw, variant):
             "threads": draw(st.sampled_from([1, 1, 2, 3, 4])),  # rows split across worker threads (contiguous keys; seam scaled down)
             "sort": draw(st.sampled_from([True, True, False])), "alt_vals": alt_vals,
             "alt_keys": [k["vals"] for k in alt_keys] if alt_keys and all(a["t"] == b["t"] for a, b in zip(alt_keys, keys)) else None,
-            "render": {"mc": draw(st.sampled_from(["np", "series"])), "vc": draw(st.sampled_from(["np", "series"])), "kc": "np"}}
+            "render": {"mc": draw(st.sampled_from(["np", "series"])), "vc": vc, "kc": "np"}}
 
 
 def _call_with_prior(case, o, gb, v, mask, prior):
@@ -114,6 +129,10 @@ def filtered(case, positions):
     c["mask"] = None
     c["layout"] = "contiguous"
     c["threads"] = 1
+    # the filtered run is the oracle side: plain containers
+    c["render"] = dict(c.get("render", {}), vc="np" if c.get("render", {}).get("vc", "np") != "series" else "series")
+    for v in c["vals"]:
+        v.pop("chunks", None)
     return c
 
 
@@ -182,7 +201,7 @@ def check(case, ctx):
         except Exception:
             changes = True
     ctx.seen("mask", case, proper and changes,
-             [f"op:{case['op']}", "mask:" + case["mask"]["kind"], f"opkind:{o.kind}", f"layout:{case.get('layout')}",
+             [f"op:{case['op']}", "mask:" + case["mask"]["kind"], f"opkind:{o.kind}", f"layout:{case.get('layout')}", f"vc:{case.get('render', {}).get('vc', 'np')}",
               "sel:empty" if not positions else ("sel:all" if len(set(positions)) == n else "sel:proper"),
               f"repeats:{len(positions) != len(set(positions))}", f"prior_calls:{len(case.get('prior') or [])}", f"threads:{case.get('threads', 1) if case.get('layout') != 'chunkwise' else 'chunkwise'}"])
     # ---- relation 1: filter first
